@@ -31,7 +31,20 @@ def c10(tier):
                  "Go toolchain used to compile and run the differential programs"])
 
 
-CHECKS = {"C06": c06, "C10": c10}
+def c12(tier):
+    vlib.standard(
+        "C12", tier, "c12", ["Properties_C12.v", "Proofs_Claims.v", "Proofs_Expr.v"],
+        assume=[
+            "same expression semantics as C10 (Z integers, NaN/Inf/rational floats, opaque calls as deterministic functions of the call history)",
+            "type switches: the dynamic content of the interface value is nil or a value of a concrete type; types.Implements enters as a table whose transitivity is re-checked in Coq for every generated lattice",
+            "named constants and the nilValReturn / dupArg checkers are outside the modelled fragment (monitored by nothing in this check)",
+        ],
+        trusted=["converter go/ast+go/types -> Model_Expr terms; type-switch entries + types.Implements table -> Model_Claims terms",
+                 "go/types (constant values, Implements), ruleguard/gogrep engine for sloppyLen and offBy1: modelled, not verified",
+                 "Go toolchain used to compile and run the instrumented programs"])
+
+
+CHECKS = {"C06": c06, "C10": c10, "C12": c12}
 
 
 def run(prop, tier):
